@@ -6,8 +6,9 @@ import ComposeVerif.Model.Include
   was joined to the relative `workingDir` of the nested load and then resolved by the operating system against the
   process working directory.  The pre-fix behaviour is `plan` / `envFilesExplicit` called with the raw `workingDir`
   (what `includeOne` did before `baseDir`); the witnesses show the file that was consulted and the one that is now.
-* **recorded (`diamond:include-fails:conflict`)** — the same resource reached through two include routes carries
-  two different spellings of the same path at the moment `importResource` compares them.
+* **fixed (38d282a)** — the same resource reached through two include routes carries two different spellings of the
+  same path at the moment `importResource` compares them; with plain `reflect.DeepEqual` (pre-fix) that is a
+  conflict, with `sameResource` (compare again after resolving both against the including project's directory) it is not.
 
 Each witness is replayed on the real loader from `corpus/C06/*.json`.
 -/
@@ -20,7 +21,11 @@ def W : World :=
     isDir := fun p => p == "/root" || p == "/root/sub" || p == "/root/sub/pd" || p == "/root/sub/deep" || p == "/cwd"
     isFile := fun p => p == "/root/sub/my.env" || p == "/root/sub/pd/.env" || p == "/root/sub/deep/d.yaml"
     envFromFile := fun _ _ => .ok []
-    loadModel := fun _ _ _ _ _ => .ok [] }
+    loadModel := fun _ _ _ _ _ => .ok []
+    -- `ResolveRelativePaths` on the one attribute the diamond witness uses (a bind source)
+    resolveRes := fun base _ v => match v with
+      | .map [("source", .str p)] => some (.map [("source", .str (join base p))])
+      | v => some v }
 
 /-- `sub/inc.yaml` is itself included from `/root/compose.yaml`: `ApplyInclude` sees `workingDir = "sub"` and a
 local loader rooted at `/root/sub` -/
@@ -59,7 +64,7 @@ theorem nested_project_directory_fixed :
     plan W (baseDir wd L) L [] entry = .ok ⟨"pd", "/root/sub/pd", ["/root/sub/deep/d.yaml"]⟩ ∧
     envFiles W (baseDir wd L) "/root/sub/pd" [] = .ok ["/root/sub/pd/.env"] := by decide +kernel
 
-/-! ### the same resource through two routes (recorded finding) -/
+/-! ### the same resource through two routes -/
 
 /-- bind source `f.txt` of `proj/s3/inc.yaml`: reached as `proj → inc1 → s3` and as `proj → ../top4 → /…/proj/inc1 → s3` -/
 def route1 : String := join "." (join "s3" "f.txt")
@@ -68,16 +73,22 @@ def route2 : String := join "../top4" (join "../proj" (join "s3" "f.txt"))
 /-- the two spellings differ, yet denote the same file once joined to the including project's directory … -/
 theorem diamond_spellings_differ : route1 ≠ route2 ∧ join "/r/proj" route1 = join "/r/proj" route2 := by decide +kernel
 
-/-- … so `importResource` reports a conflict for a resource that is identical on both routes -/
-theorem diamond_conflict :
-    (importEntries [("ser4", .map [("source", .str route2)])] [("ser4", .map [("source", .str route1)])]).errOf
+/-- … so, pre-fix, `importResource` reported a conflict for a resource that is identical on both routes -/
+theorem diamond_conflict_prefix :
+    (importEntries (deepEqual "services") [("ser4", .map [("source", .str route2)])] [("ser4", .map [("source", .str route1)])]).errOf
       = some "conflict" := by
   decide +kernel
 
-/-- full strength "resources that are equal after resolution are accepted" is false -/
-theorem identical_after_resolution_refuted :
+/-- post-fix: `sameResource` resolves both against the including project's directory and accepts -/
+theorem diamond_fixed :
+    (importEntries (sameResource W "/r/proj" "services") [("ser4", .map [("source", .str route2)])]
+      [("ser4", .map [("source", .str route1)])]).isOk = true := by
+  decide +kernel
+
+/-- full strength "resources that are equal after resolution are accepted" was false for the pre-fix test -/
+theorem identical_after_resolution_refuted_prefix :
     ¬ (∀ (base a b : String), join base a = join base b →
-        (importEntries [("r", .str a)] [("r", .str b)]).isOk = true) := by
+        (importEntries (deepEqual "secrets") [("r", .str a)] [("r", .str b)]).isOk = true) := by
   intro h
   have := h "/r/proj" route1 route2 (by decide +kernel)
   revert this
